@@ -102,15 +102,20 @@ Theorem C08_filesz_types_are_layouts :
 Proof. exact filesz_types_are_layouts. Qed.
 Print Assumptions C08_filesz_types_are_layouts.
 
-Theorem C08_layouts_reachable_except_known :
-  forallb (fun l => memb (l_name l) filesz_try_all || memb (l_name l) known_unreachable)
-          fixedstruct_layouts = true.
-Proof. exact layouts_reachable_except_known. Qed.
-Print Assumptions C08_layouts_reachable_except_known.
+Theorem C08_layouts_reachable :
+  forallb (fun l => memb (l_name l) filesz_try_all) fixedstruct_layouts = true.
+Proof. exact layouts_reachable. Qed.
+Print Assumptions C08_layouts_reachable.
 
-(* recorded finding: one supported layout is never offered by filesz_to_types *)
+Theorem C08_layouts_have_bonus :
+  forallb (fun l => memb (l_name l) (map snd filesz_bonus)) fixedstruct_layouts = true.
+Proof. exact layouts_have_bonus. Qed.
+Print Assumptions C08_layouts_have_bonus.
+
+(* regression statement about the try-all list as it was before commit dd987c74 (frozen
+   snapshot): one supported layout was never offered by filesz_to_types *)
 Theorem C08_layout_reachability_refuted :
-  exists n, In n known_unreachable /\ memb n try_all_snapshot = false.
+  exists n, In n layout_names_snapshot /\ memb n try_all_snapshot = false.
 Proof. exact layout_reachability_refuted. Qed.
 Print Assumptions C08_layout_reachability_refuted.
 
